@@ -28,6 +28,7 @@ import (
 	"io"
 	"log"
 	"math"
+	"os"
 	"sort"
 	"strconv"
 	"strings"
@@ -630,10 +631,13 @@ func (rk ranks) list(ids []b6.FeatureID) string {
 	return hx.List(xs)
 }
 
-func runCase(t *Transcript, c *gcase) {
+func runCase(t *Transcript, c *gcase, phase func(string)) {
 	for _, s := range c.shape {
 		t.Note(s)
 	}
+	// A child that dies between these two marks died inside the builder (C01's code, and outside this
+	// property's domain: the files of a merged world are files the builder produced); see blocks.go.
+	phase("building")
 	datas := make([][]byte, len(c.files))
 	for k := range c.files {
 		var bases [][]byte
@@ -646,6 +650,16 @@ func runCase(t *Transcript, c *gcase) {
 			return
 		}
 	}
+	// the one-file build of the union
+	var udata []byte
+	if !c.dup {
+		var ok bool
+		if udata, ok = build(c, -1, nil); !ok {
+			t.Op("union", "err")
+			return
+		}
+	}
+	phase("built")
 	// namespaces of the case
 	nss := map[b6.Namespace]bool{b6.NamespaceInvalid: true, nsAbsent: true}
 	for _, ns := range b6.OSMNamespaces {
@@ -793,16 +807,10 @@ func runCase(t *Transcript, c *gcase) {
 			t.Op(fmt.Sprintf("idx %d %s", k, nq.name), guard(func() string { return rk.list(featIDs(m.VerifFindFeaturesInIndex(i, nq.q))) }))
 		}
 	}
-	// the one-file build of the union
 	var u *compact.World
 	if !c.dup {
-		data, ok := build(c, -1, nil)
-		if !ok {
-			t.Op("union", "err")
-			return
-		}
 		var err error
-		if u, err = compact.NewWorldFromData(data); err != nil {
+		if u, err = compact.NewWorldFromData(udata); err != nil {
 			t.Op("union", "load-err")
 			return
 		}
@@ -881,6 +889,14 @@ func runCase(t *Transcript, c *gcase) {
 // explicit runtime.GC() inside the builder frees them, the next build reuses and therefore clears
 // them. A child process that runs many cases (collector otherwise off) pays for paging them in once.
 func build(c *gcase, k int, bases [][]byte) ([]byte, bool) {
+	if os.Getenv("C17_DEBUG") != "" { // replay aid: which build a child dies in, and on what
+		fmt.Fprintf(os.Stderr, "build %d of %d files\n", k, len(c.files))
+		if k >= 0 {
+			for _, g := range c.files[k].feats {
+				fmt.Fprintf(os.Stderr, "  %v refs=%v members=%v loops=%v\n", g.id, g.refs, g.members, g.loops)
+			}
+		}
+	}
 	o := compact.Options{Goroutines: 0, PointsScratchOutputType: compact.OutputTypeMemory}
 	var data []byte
 	var err error
@@ -913,14 +929,15 @@ func caseChild(arg string) string {
 	count, _ := strconv.Atoi(f[3])
 	for no := first; no < first+count; no++ {
 		var t Transcript
+		phase := func(p string) { fmt.Printf("PHASE\t%d\t%s\n", no, p) }
 		if no >= 1000000 {
 			for k := 0; k < nCorpus; k++ {
-				runCase(&t, corpus(k))
+				runCase(&t, corpus(k), phase)
 				t.Op("reset", "-")
 			}
 		} else {
 			r := CaseRand(seed, no)
-			runCase(&t, generate(r, thorough && r.Chance(1, 8)))
+			runCase(&t, generate(r, thorough && r.Chance(1, 8)), phase)
 		}
 		// printed as soon as the case is done: see blocks.go
 		fmt.Printf("CASE\t%d\n%sEND\t%d\n", no, t.String(), no)
@@ -959,7 +976,7 @@ func main() {
 			sized = true
 		}
 		res := blocks.Get(c.Seed, c.Tier, c.CaseNo)
-		if res == "crash" || res == "hang" {
+		if res == "crash" || res == "hang" || res == "builder-crash" {
 			c.Op("build", res)
 			c.Note("child:" + res)
 			return
